@@ -279,7 +279,78 @@ def run_r5(ctx, rule):
                 rule.check(has_lit and has_out, "transfer/polarity/%d" % n, "the transferred literal is new ^ code(lit) ^ code(def.output)", f.loc(bb))
     if n < 2:
         rule.bad("transfer/polarity-sites", "only %d polarity computations found in transfer (2 expected)" % n, kind="anchor-missing")
-
+    # every result handed back from the gate arm (State::Input1) is  map-value ^ code(lit) ^ code(def.output):
+    # exactly three xor leaves -- the requested literal of this state, the defined output, and the code of
+    # the value that a dominating LitMap::insert stored for that output (so get() later agrees with it)
+    from . import table
+    g = cfg(f)
+    is_code = lambda x: x[0] == "call" and norm(x[2]).endswith("Lit::code")
+    def leaves(e):
+        if e[0] == "bin" and e[1] == "BitXor":
+            return leaves(e[2]) + leaves(e[3])
+        return [e]
+    def state_field(e, name):
+        if e[0] == "l":
+            ds = def_exprs(e[1])  # (the gate definition is updated in place, so not sy.origin)
+            if len(ds) != 1:
+                return False
+            e = ds[0][1]
+        return e[0] == "f" and e[2] == name and e[1][0] == "v" and e[1][2] == "Input1"
+    def def_exprs(l):
+        out = []
+        for d in sy.defs.get(l, []):
+            if d[0] == "stmt":
+                out.append((d[1], sy.rvalue(d[3], 1)))
+            else:
+                c = d[2].get("callee", {})
+                out.append((d[1], ("call", d[1], c.get("res") or c.get("def") or "?", tuple(sy.operand(a, 1) for a in d[2]["args"]))))
+        return out
+    def same_value(x, v):
+        """x is (always) the code of the literal v"""
+        if is_code(x) and x[3][0] == v:
+            return True
+        if x[0] != "l" or v[0] != "l":
+            return False
+        xs, vs = def_exprs(x[1]), def_exprs(v[1])
+        if not xs or not vs:
+            return False
+        def linked(xa, va):
+            (xb, xe), (vb, ve) = xa, va
+            if is_code(xe) and xe[3][0] == v and g.dominates(vb, xb):
+                return True
+            return ve[0] == "call" and norm(ve[2]).endswith("Lit::from_code") and ve[3][0] == x and g.dominates(xb, vb)
+        return all(any(linked(xa, va) for va in vs) for xa in xs) and all(any(linked(xa, va) for xa in xs) for va in vs)
+    inserts = [(bb, sy.operand(t["args"][1]), sy.operand(t["args"][2])) for bb, t in f.calls() if norm(util.cname(t)).endswith("LitMap::insert")]
+    m = 0
+    for f2, bi, si, rv in util.aggregates(facts, lambda a: a == AIG + "State"):
+        if f2 is not f or rv["variant"] != "Return":
+            continue
+        ctxv = table.variant_context(facts, f, bi)
+        if ("State", "Input1") not in ctxv:
+            continue
+        m += 1
+        e = sy.operand(rv["ops"][0])
+        if e[0] == "l":
+            e = sy.origin(e)
+        why = None
+        if not (e[0] == "call" and norm(e[2]).endswith("Lit::from_code")):
+            why = "not built by from_code"
+        else:
+            ls = leaves(e[3][0])
+            lit = [x for x in ls if is_code(x) and state_field(x[3][0], "lit")]
+            out = [x for x in ls if is_code(x) and x[3][0][0] == "f" and x[3][0][2] == "output" and state_field(x[3][0][1], "def")]
+            rest = [x for x in ls if x not in lit and x not in out]
+            if len(ls) != 3 or len(lit) != 1 or len(out) != 1 or len(rest) != 1:
+                why = "xor leaves are not {value, code(lit), code(def.output)}"
+            else:
+                dom = [(bb, k, v) for bb, k, v in inserts if g.dominates(bb, bi) and k == out[0][3][0]]
+                if not dom:
+                    why = "no dominating lit_map.insert(def.output, ..)"
+                elif not any(same_value(rest[0], v) for bb, k, v in dom):
+                    why = "the value leaf is not the code of the literal stored by lit_map.insert(def.output, ..)"
+        rule.check(why is None, "transfer/return-polarity/%d" % m, "a literal returned from the gate arm is from_code(code(stored) ^ code(lit) ^ code(def.output))%s" % (" -- " + why + ": " + sy.show(e)[:80] if why else ""), f.loc(bi))
+    if m < 2:
+        rule.bad("transfer/return-sites", "only %d returns from the gate arm found (2 expected)" % m, kind="anchor-missing")
 
 def run(ctx):
     r1 = ctx.rule("C12-R1", "the renumbering code is not recursive (explicit stack)", floor=2)
